@@ -58,6 +58,15 @@ def one(rec, hub, seed, tier, i):
             # and a second stock of the other kind that shares the lifetime-model instance
             other = dsm.make_stock(fd, cfg, "InflowDrivenDSM", lm=s.lifetime_model, inflow=np.abs(np.asarray(s.inflow.values, dtype=float)))
             other.compute()
+        if hasattr(s, "lifetime_model") and rng.random() < 0.2:
+            # a shallow copy of the stock's lifetime model (model_copy() / copy.copy) is given other parameters and used; the stock,
+            # computed again with its own model, is what it was
+            import copy as _copy
+
+            lm_cp = s.lifetime_model.model_copy() if rng.random() < 0.5 else _copy.copy(s.lifetime_model)
+            lm_cp.set_prms(**{pn: np.array(v) * (1.7 if pn in ("mean", "weibull_scale") else 1.0) for pn, v in cfg["truth"].items()})
+            lm_cp.sf, lm_cp.pdf
+            s.compute()
         if hasattr(s, "lifetime_model") and rng.random() < 0.25:
             # the same object once more with a driver that is zero everywhere (a scenario without the product): every result,
             # the cohort tables included, is that of an empty stock
